@@ -808,3 +808,119 @@ Proof.
 Qed.
 
 End RunFinal.
+
+(* ================================================================== *)
+(* Part D: update_ancestors_of computes the valid-parent closure, whatever the iteration order
+   of the parent sets (discrete; no number type involved)                                       *)
+(* ================================================================== *)
+Section AncestorsTheory.
+Variable vp : nat -> nat -> bool.
+Variable parents : nat -> nat -> Prop.       (* parents n p : p is in n.parent_states *)
+
+(* the specification: least set containing x and closed under valid parents *)
+Inductive anc (x : nat) : nat -> Prop :=
+| anc_root : anc x x
+| anc_step n p : anc x n -> parents n p -> vp p n = true -> anc x p.
+
+Lemma memn_In x l : memn x l = true <-> In x l.
+Proof.
+  unfold memn. rewrite existsb_exists. split.
+  - intros (y & Hy & E). apply Nat.eqb_eq in E. now subst.
+  - intros H. exists x. split; [auto|apply Nat.eqb_refl].
+Qed.
+
+Section Order.
+Variable pord : nat -> list nat.
+Hypothesis pord_spec : forall n p, In p (pord n) <-> parents n p.
+
+(* invariant of the loop *)
+Definition anc_inv (x : nat) (fr A : list nat) : Prop :=
+  (In x A \/ In x fr) /\
+  (forall s, In s A \/ In s fr -> anc x s) /\
+  (forall n p, In n A -> parents n p -> vp p n = true -> In p A \/ In p fr).
+
+Lemma anc_loop_inv x fuel : forall fr A A',
+  anc_inv x fr A -> anc_loop pord vp fuel fr A = Some A' -> anc_inv x [] A'.
+Proof.
+  induction fuel as [|f IH]; intros fr A A' Hinv Hrun.
+  - destruct fr; simpl in Hrun; [|discriminate]. now inversion Hrun; subst.
+  - destruct fr as [|n fr']; simpl in Hrun; [now inversion Hrun; subst|].
+    apply IH in Hrun; [exact Hrun|]. clear IH Hrun.
+    destruct Hinv as (Hroot & Hsound & Hclosed).
+    set (A1 := if memn n A then A else n :: A) in *.
+    assert (HA1 : forall s, In s A1 <-> s = n \/ In s A).
+    { intros s. unfold A1. destruct (memn n A) eqn:E.
+      - apply memn_In in E. split; [auto|]. intros [->|H]; auto.
+      - simpl. split; intros [H|H]; auto. }
+    set (new := filter (fun p => negb (memn p A1) && vp p n) (pord n)).
+    assert (Hnew : forall p, In p (rev new) <-> parents n p /\ vp p n = true /\ ~ In p A1).
+    { intros p. rewrite <- in_rev. unfold new. rewrite filter_In, pord_spec, andb_true_iff, negb_true_iff.
+      split.
+      - intros (H1 & H2 & H3). repeat split; auto. intros Hin. apply memn_In in Hin. congruence.
+      - intros (H1 & H2 & H3). repeat split; auto. destruct (memn p A1) eqn:E; [|reflexivity].
+        apply memn_In in E. contradiction. }
+    assert (Hn : anc x n) by (apply Hsound; right; left; reflexivity).
+    split; [|split].
+    + destruct Hroot as [H|[H|H]].
+      * left. apply HA1. auto.
+      * left. apply HA1. auto.
+      * right. apply in_or_app. auto.
+    + intros s [H|H].
+      * apply HA1 in H as [->|H]; [exact Hn|apply Hsound; auto].
+      * apply in_app_or in H as [H|H].
+        -- apply Hnew in H as (H1 & H2 & _). eapply anc_step; eauto.
+        -- apply Hsound. right. right. exact H.
+    + intros k p Hk Hpar Hv. apply HA1 in Hk as [->|Hk].
+      * destruct (in_dec Nat.eq_dec p A1) as [Hin|Hnin]; [left; exact Hin|].
+        right. apply in_or_app. left. apply Hnew. auto.
+      * destruct (Hclosed k p Hk Hpar Hv) as [H|[H|H]].
+        -- left. apply HA1. auto.
+        -- left. apply HA1. auto.
+        -- right. apply in_or_app. auto.
+Qed.
+
+(* the collected set is exactly the valid-parent closure of x *)
+Theorem ancestors_closure fuel x A :
+  ancestors_of pord vp fuel x = Some A -> forall s, In s A <-> anc x s.
+Proof.
+  intros H. assert (Hinv : anc_inv x [] A).
+  { apply (anc_loop_inv x fuel [x] [] A); [|exact H].
+    split; [right; left; reflexivity|]. split.
+    - intros s [[]|[<-|[]]]. constructor.
+    - intros n p []. }
+  destruct Hinv as (Hroot & Hsound & Hclosed). intros s. split.
+  - intros Hs. apply Hsound. auto.
+  - induction 1 as [|n p Hn IH Hp Hv].
+    + destruct Hroot as [H0|[]]. exact H0.
+    + destruct (Hclosed n p IH Hp Hv) as [H0|[]]. exact H0.
+Qed.
+End Order.
+
+(* two iteration orders of the same parent sets collect the same set *)
+Theorem ancestors_order_indep pord1 pord2 fuel1 fuel2 x A1 A2 :
+  (forall n p, In p (pord1 n) <-> parents n p) ->
+  (forall n p, In p (pord2 n) <-> parents n p) ->
+  ancestors_of pord1 vp fuel1 x = Some A1 -> ancestors_of pord2 vp fuel2 x = Some A2 ->
+  forall s, In s A1 <-> In s A2.
+Proof.
+  intros H1 H2 R1 R2 s.
+  rewrite (ancestors_closure pord1 H1 fuel1 x A1 R1 s), (ancestors_closure pord2 H2 fuel2 x A2 R2 s).
+  reflexivity.
+Qed.
+
+End AncestorsTheory.
+
+(* the set update_ancestors_of collects satisfies the closure part of the machine's guard *)
+Lemma ancestors_guard (m : mdp R) (E : nat -> bool) (pol : nat -> nat)
+      (vp : nat -> nat -> bool) (parents : nat -> nat -> Prop) (x : nat) (Z : nat -> bool) :
+  (forall s ns, (s < nS m)%nat -> (ns < nS m)%nat -> E s = true -> 0 < Pm m s (pol s) ns ->
+                parents ns s /\ vp s ns = true) ->
+  (forall s, Z s = true <-> anc vp parents x s) ->
+  forall s, (s < nS m)%nat -> E s = true -> Z s = false ->
+  forall ns, (ns < nS m)%nat -> 0 < Pm m s (pol s) ns -> Z ns = false.
+Proof.
+  intros H HZ s Hs HE HZs ns Hns Hp. destruct (Z ns) eqn:E1; [|reflexivity]. exfalso.
+  apply HZ in E1. destruct (H s ns Hs Hns HE Hp) as (Hpar & Hv).
+  assert (Ha : anc vp parents x s) by (eapply anc_step; eauto).
+  apply HZ in Ha. congruence.
+Qed.
